@@ -319,7 +319,6 @@ ViewFails(o, w, which) ==
         \cup (IF Len(ab) # (IF fam = 0 THEN Len(raw) - 16 ELSE V2!FamilySize(fam)) THEN {<< "C14", "address-view-size", which >>} ELSE {})
         \cup (IF w.length + 16 # w.len \/ w.len # Len(raw) \/ w.length # V2!Declared(raw) \/ w.is_empty THEN {<< "C14", "lengths", which >>} ELSE {})
         \cup (IF w.af # V2!FamilyName(fam) \/ w.af # o.addr.k THEN {<< "C14", "family", which >>} ELSE {})
-        \cup (IF w.alen # V2!FamilySize(fam) \/ w.afsize # V2!FamilySize(fam) \/ w.aempty # (fam = 0) THEN {<< "C14", "address-size-accessors", which >>} ELSE {})
         \cup (IF fam # 0 /\ ~SameAddr(o.addr, V2!DecodeAddresses(fam, ab)) THEN {<< "C14", "address-decoding", which >>} ELSE {})
 
 C14_Fails(b, v) ==
@@ -439,10 +438,15 @@ StripItem(i) == IF i.k = "ok" THEN [k |-> "ok", t |-> i.t, v |-> Flat(i.v)]
                 ELSE IF i.k = "err" THEN [k |-> "err", e |-> i.e, a |-> i.a, b |-> i.b]
                 ELSE [k |-> i.k]
 
+(* C11 asks for "exactly one error item", which names the type and the declared length when a
+   value overruns; which error kind it is, and what it carries when fewer than three bytes remain,
+   is not part of the property (compared as model drift) *)
 SameItem(obs, exp) ==
     /\ obs.k = exp.k
     /\ (exp.k = "ok" => obs.t = exp.t /\ obs.v = exp.v)
-    /\ (exp.k = "err" => obs.e = exp.e /\ (exp.e = "InvalidTLV" => obs.a = exp.a /\ obs.b = exp.b))
+    /\ (exp.k = "err" /\ exp.e = "InvalidTLV" => obs.a = exp.a /\ obs.b = exp.b)
+
+SameItemExactly(obs, exp) == SameItem(obs, exp) /\ (exp.k = "err" => obs.e = exp.e /\ obs.a = exp.a /\ obs.b = exp.b)
 
 (* long walks are logged as their first 40 and last 5 items plus the total number of calls *)
 CapItems(e) == IF Len(e) > 50 THEN SubSeq(e, 1, 40) \o SubSeq(e, Len(e) - 4, Len(e)) ELSE e
@@ -456,6 +460,7 @@ WalkFails(sec, walk, prop) ==
          IN  IF walk.hit_bound THEN {<< prop, "iteration-bound-hit", "v2" >>}
              ELSE IF walk.n # Len(full) \/ Len(items) # Len(exp) THEN {<< prop, "item-count", "v2" >>}
              ELSE IF \E i \in 1..Len(exp) : ~SameItem(items[i], exp[i]) THEN {<< prop, "item-differs", "v2" >>}
+             ELSE IF \E i \in 1..Len(exp) : ~SameItemExactly(items[i], exp[i]) THEN {<< "DRIFT", "tlv-error-kind-or-payload", "v2" >>}
              ELSE {}
 
 C11_Fails(b, v) ==
